@@ -154,6 +154,12 @@ where
     if cases == 0 {
         return;
     }
+    // debugging aid: FVH_ONLY=<sub>[,<sub>...] restricts a run to the named sub-checks
+    if let Ok(only) = std::env::var("FVH_ONLY") {
+        if !only.split(',').any(|x| x == sub) {
+            return;
+        }
+    }
     let cfg = Config {
         cases,
         failure_persistence: None,
